@@ -68,3 +68,9 @@ chk("C15", "exploration", "bounded-exhaustive operation sequences + type-strict 
     "Python dict model of the statement.",
     "Trusted: Python json for reading the dumps; unjudged operations (statement silent) are only required not to change the "
     "object.", "DESIGN.md 3/C15")
+chk("C16", "exploration", "bounded-exhaustive operation sequences + Python list model over logged state dumps, under ASan/UBSan/LSan",
+    "All sequences up to length 4 (quick) / 5 (thorough) over 14 keyring operations and 1.5e3 / 4e4 random sequences up to "
+    "length 200; after every step the complete observable state (count, each item's unique id/kid/error by index, "
+    "find_bykid results, error_any, set error) is dumped and compared with an ordered-list model; AddressSanitizer catches "
+    "use of freed items, LeakSanitizer leaks at exit.",
+    "Trusted: unique ids carried in key bytes/kids identify items; sanitizers see libjwt code only.", "DESIGN.md 3/C16")
